@@ -38,6 +38,10 @@ type Manager struct {
 	providers      []ConvergenceProvider
 	providersMutex sync.Mutex
 
+	// registerMutex serializes registrations: looking an address up, starting its CLA and storing the element must
+	// not interleave with another registration of this address, e.g., by two discovery announcements at once.
+	registerMutex sync.Mutex
+
 	// inChnl receives ConvergenceStatus while outChnl passes it on. Both channels
 	// are not buffered. While this is not a problem for inChnl, outChnl must
 	// always be read, otherwise the Manager will block.
@@ -195,6 +199,9 @@ func (manager *Manager) Register(conv Convergable) {
 }
 
 func (manager *Manager) registerConvergence(conv Convergence) {
+	manager.registerMutex.Lock()
+	defer manager.registerMutex.Unlock()
+
 	// Check if this CLA is already known. Re-activate a deactivated CLA or abort.
 	var ce *convergenceElem
 	if convElem, exists := manager.convs.Load(conv.Address()); exists {
